@@ -365,6 +365,16 @@ func (h *SexpHash) TypeCheckField(key Sexp, val Sexp) error {
 			}
 		}
 		obsTyp := val.Type()
+		if arr, isArr := val.(*SexpArray); isArr && len(arr.Val) > 0 {
+			// An array caches its type and append and slice carry
+			// the cached type along - also the "[]" of an array that
+			// was empty when it was typed, which fits every slice
+			// field. Go by what the array holds now.
+			obsTyp = nil
+			if first := arr.Val[0].Type(); first != nil {
+				obsTyp = GoStructRegistry.GetOrCreateSliceType(first)
+			}
+		}
 		if obsTyp == nil {
 			// allow certain types to be nil, e.g. [] and nil itself
 			switch a := val.(type) {
